@@ -12,6 +12,7 @@ type t = {
   mutable cur : string;
   disks : (string, disk) Hashtbl.t;          (* other directories (backups) *)
   mutable iter : Iter_driver.t option;
+  mutable all_events : event list;           (* every I/O event of the scenario so far, in order (reversed) *)
 }
 
 let empty_disk : disk = { k_data = []; k_hint = None; k_merge = None }
@@ -19,10 +20,10 @@ let default_cfg : cfg = { c_fsize = n_of_int 1024; c_sync = N0; c_bps = N0; c_io
 
 let create () : t =
   { cfg = default_cfg; db = None; disk = empty_disk; batch = None; cur = "db";
-    disks = Hashtbl.create 4; iter = None }
+    disks = Hashtbl.create 4; iter = None; all_events = [] }
 let reset (s : t) =
   s.cfg <- default_cfg; s.db <- None; s.disk <- empty_disk; s.batch <- None; s.cur <- "db";
-  Hashtbl.reset s.disks; s.iter <- None
+  Hashtbl.reset s.disks; s.iter <- None; s.all_events <- []
 
 let fname_str = function
   | FData id -> "D" ^ string_of_n id
@@ -34,7 +35,7 @@ let fname_str = function
 let event_str = function
   | EvCreate f -> "C " ^ fname_str f
   | EvOpen f -> "O " ^ fname_str f
-  | EvWrite (f, n) -> Printf.sprintf "W %s %s" (fname_str f) (string_of_n n)
+  | EvWrite (f, n, _) -> Printf.sprintf "W %s %s" (fname_str f) (string_of_n n)
   | EvSync f -> "S " ^ fname_str f
   | EvClose f -> "X " ^ fname_str f
   | EvTrunc (f, n) -> Printf.sprintf "T %s %s" (fname_str f) (string_of_n n)
@@ -59,7 +60,9 @@ let sort_close_groups (evs : string list) : string list =
   let groups = List.stable_sort (fun (a, _) (b, _) -> compare (file_order a) (file_order b)) groups in
   List.concat_map snd groups
 
+let recorder : (event list -> unit) ref = ref (fun _ -> ())
 let events_str ?(sorted = false) (evs : event list) : string =
+  !recorder evs;
   let l = List.map event_str evs in
   let l = if sorted then sort_close_groups l else l in
   if l = [] then "" else " ;; " ^ String.concat " ; " l
@@ -102,9 +105,51 @@ let listing (s : t) : string =
 let obs_head (o : string) : string =
   match split_first o " ;; " with (h, _) -> String.trim h
 
+let fname_of_str (x : string) : fname =
+  let num () = n_of_string (String.sub x 1 (String.length x - 1)) in
+  if x = "H" then FHint else if x = "MH" then MHint else if x = "MK" then MMarker
+  else if x.[0] = 'D' then FData (num ()) else MData (num ())
+
+let dump_of (d : db) : string =
+  let keys = db_list_keys d in
+  let b = Buffer.create 64 in
+  let cur = ref d in
+  List.iter (fun k ->
+    let ((d', r), _) = db_get !cur k in
+    cur := d';
+    match r with
+    | Inl v -> Buffer.add_string b (obs_bytes k ^ "=" ^ obs_bytes v ^ ";")
+    | Inr e -> Buffer.add_string b (obs_bytes k ^ "!" ^ eerr_name e ^ ";")) keys;
+  Printf.sprintf "%d %s" (List.length keys) (md5hex (Buffer.contents b))
+
+let rec nat_of_int (i : int) : nat = if i <= 0 then O else S (nat_of_int (i - 1))
+
 let exec (s : t) (verbose : bool) (f : string array) (obs : string option) : string =
   ignore verbose;
+  recorder := (fun evs -> s.all_events <- List.rev_append evs s.all_events);
   match f.(1) with
+  | "mark" -> ""
+  | "crashat" ->
+    (* E crashat <k> <cut> <cfg 6 fields>: the image after the first k events of the scenario,
+       cut as requested, opened (twice) with the given configuration *)
+    let k = int_of_string f.(2) in
+    let mode = match String.split_on_char ':' f.(3) with
+      | ["none"] -> CutNone | ["durable"] -> CutDurable
+      | ["at"; nm; n] -> CutAt (fname_of_str nm, n_of_string n)
+      | _ -> failwith "bad cut" in
+    let c = { c_fsize = n_of_string f.(4); c_sync = n_of_string f.(5); c_bps = n_of_string f.(6);
+              c_io = n_of_string f.(7) } in
+    let evs = List.rev s.all_events in
+    recorder := (fun _ -> ());
+    (match crash_open c evs (nat_of_int k) mode with
+     | (OpenOk (d, kd), _) ->
+       let d1 = dump_of d in
+       (* close and open again: re-running recovery / an interrupted adoption is harmless *)
+       let (k2, _) = db_close d kd in
+       (match db_open c k2 with
+        | (OpenOk (d', _), _) -> "ok " ^ d1 ^ " / " ^ dump_of d'
+        | (OpenErr (e, _), _) -> "ok " ^ d1 ^ " / err " ^ eerr_name e)
+     | (OpenErr (e, _), _) -> "err " ^ eerr_name e)
   | "dir" ->
     (* leave the current directory (its disk is kept), enter another one *)
     Hashtbl.replace s.disks s.cur s.disk;
